@@ -32,7 +32,8 @@ Event(ev) ==
       [] ev.ev = "Advance" -> TraceAdvance(ev.now)
       [] ev.ev = "ObsBuf" -> buf = ev.buf /\ Same
       [] ev.ev = "ObsRc" -> (\A e \in 1 .. Len(ev.rc) : rc[e] = ev.rc[e]) /\ Same
-      [] ev.ev = "End" -> Same
+      \* after the drain (the driver lets the clock run while anything is held) nothing that was accepted is left behind
+      [] ev.ev = "End" -> (cbpc # "dead" => buf = <<>>) /\ Same
       [] OTHER -> FALSE
 
 TraceNext ==
